@@ -19,6 +19,7 @@ pub struct Uint<const BITS: usize, const LIMBS: usize> { pub
 
 //@ include lib/uint_spec.rs
 //@ include lib/uint_ops.rs
+//@ include lib/lehmer_spec.rs
 //@ include lib/lehmer.rs
 //@ include lib/sgcd.rs
 
